@@ -250,6 +250,23 @@ def chunks(prop, tier, n):
                     out.append(dict(prop=prop, seed=i, kind="h", rot=0, viol=True, vop=vop))
                 else:
                     out.append(dict(prop=prop, seed=i, kind="h", mode="comment", sub=0, viol=True, vop=vop))
+    # boundary-maximal / corner programs (harness/families.py maximal_programs) as bases of every relation
+    for mi, mp in enumerate(F.maximal_programs()):
+        kind = "h" if mp.name.endswith(".h") else "c"
+        if prop == "C19":
+            for mode in ("header", "comment", "append"):
+                if mode == "append" and (kind == "h" or mp.meta.get("nfuncs", 5) >= 5):
+                    continue
+                out.append(dict(prop=prop, maxi=mi, seed=mi, kind=kind, mode=mode, sub=len(out)))
+        elif prop == "C17":
+            out.append(dict(prop=prop, maxi=mi, seed=mi, kind=kind, inside=True, rot=0))
+        else:
+            out.append(dict(prop=prop, maxi=mi, seed=mi, kind=kind, rot=0))
+    if prop == "C19":
+        # bases with exactly FOUR functions: the appended function reaches the limit of five exactly
+        for sd in four_function_seeds(3 if tier == "quick" else 12):
+            out.append(dict(prop=prop, seed=sd, kind="c", mode="append", sub=len(out), gen_tier="thorough"))
+            out.append(dict(prop=prop, seed=sd, kind="c", mode="append", sub=len(out), gen_tier="thorough", viol=True))
     if prop == "C18":
         for m in range(len(F.micro_programs())):
             out.append(dict(prop=prop, micro=m, seed=m, kind="c", rot=0))
@@ -271,6 +288,20 @@ def chunks(prop, tier, n):
     return out
 
 
+_FOUR = {}
+
+
+def four_function_seeds(n):
+    if n not in _FOUR:
+        out, sd = [], 0
+        while len(out) < n and sd < 2000:
+            if F.program(sd, "thorough", "c").meta.get("nfuncs") == 4:
+                out.append(sd)
+            sd += 1
+        _FOUR[n] = out
+    return _FOUR[n]
+
+
 def shifted(errors, at_line, by, drop=None):
     """expected diagnostics after inserting `by` lines before line `at_line` (1-based)"""
     out = []
@@ -290,7 +321,9 @@ def run_chunk(chunk, ctx):
     ex = Explorer()
     core.set_run(ex)
     col = Collector(HNAME, seed=ctx["seed"], sample_rate=ctx.get("sample_rate", 0.1))
-    prog = F.program(chunk["seed"], ctx["tier"], chunk["kind"])
+    prog = F.program(chunk["seed"], chunk.get("gen_tier", ctx["tier"]), chunk["kind"])
+    if "maxi" in chunk:
+        prog = F.maximal_programs()[chunk["maxi"]]
     if chunk.get("viol") and "micro" not in chunk:
         prog = violate(prog, chunk["seed"], chunk.get("vop"))
         if prog is None:
